@@ -277,6 +277,13 @@ def run(ctx):
               "orcc can emit a wrapper for a 2-D program that never stores ORC_EXECUTOR_M(ex) (path %s): orc_executor_emulate and the C "
               "backup read the row count from the executor, so a constant .m works only as long as JIT code runs" % (w,))
 
+    # ---- D1c: what the .orc source says about an array survives the rebuild inside the wrapper ----------
+    # Generated wrappers rebuild the program at run time from bytecode (or, for old --compat levels, through the _full
+    # constructors): size and alignment must be stored as given there, or the JIT is compiled for other alignment
+    # assumptions than the source states (shared with C13-D2).
+    import importlib
+    importlib.import_module("rules.c13").field_fidelity(db, rep, "D1-REBUILD-FIDELITY")
+
     # ---- D3b: the two halves are combined without sign extension -----------------------------
     # (the code templates of orcprogram-c.c / orcc.c that assemble a 64-bit parameter are instantiated into a scratch
     #  translation unit and type-analysed; plus every real function that ORs a shifted high half)
